@@ -479,9 +479,12 @@ pub fn fsm_declare(fsm_decl: &FsmDeclare, env: Option<&Environment>, p: &Interpr
   Ok(result)
 }
 
+// A variable defined from another variable gets its own copy of the value:
+// a plain clone would share the source's cells, so that assigning through
+// either name would change the value seen through the other.
 fn detach_variable_value(value: &Value) -> Value {
   match value {
-    Value::MutableReference(reference) => detach_variable_value(&reference.borrow()),
+    Value::MutableReference(reference) => reference.borrow().deep_clone(),
     _ => value.clone(),
   }
 }
